@@ -113,9 +113,10 @@ def main(argv):
     budget = 180
     if "--thorough-budget" in argv:
         budget = int(argv[argv.index("--thorough-budget") + 1])
-    ids = sorted(d for d in os.listdir(SEEDED) if os.path.isdir(os.path.join(SEEDED, d)) and os.path.exists(os.path.join(SEEDED, d, "patch.diff")))
+    ids = sorted((d for d in os.listdir(SEEDED) if os.path.isdir(os.path.join(SEEDED, d)) and os.path.exists(os.path.join(SEEDED, d, "patch.diff"))),
+                 key=lambda d: (d.split("-")[0], int(d.split("-")[1])))
     if sel != "all":
-        ids = [i for i in ids if i == sel or i.startswith(sel)]
+        ids = [i for i in ids if i == sel or ("-" not in sel and i.startswith(sel + "-"))]
     results = []
     prev = {}
     rj = os.path.join(SEEDED, "results.json")
@@ -128,7 +129,7 @@ def main(argv):
         print("SEEDED %-10s %-4s demo(untouched/patched)=%s/%s caught_by=%s %s" % (sid, r["property"], r.get("demo_untouched_exit"), r.get("demo_patched_exit"),
                                                                                 r.get("caught_by"), (r.get("clause") or r.get("error") or "")[:150]))
         sys.stdout.flush()
-    allr = [prev[k] for k in sorted(prev)]
+    allr = [prev[k] for k in sorted(prev, key=lambda d: (d.split("-")[0], int(d.split("-")[1])))]
     with open(rj, "w") as f:
         json.dump(allr, f, indent=1)
     with open(os.path.join(SEEDED, "RESULTS.md"), "w") as f:
